@@ -55,12 +55,16 @@ def make_pair(maxsize, typed):
         log_a.append((a, tuple(k.items())))
         if mode["fail"]:
             raise Boom("failing call")
+        if a == (2,):
+            return None  # a legitimate result
         return ("result", len(log_a))
 
     def fs(*a, **k):
         log_s.append((a, tuple(k.items())))
         if mode["fail"]:
             raise Boom("failing call")
+        if a == (2,):
+            return None
         return ("result", len(log_s))
 
     if maxsize == "default":
@@ -96,7 +100,7 @@ class Model:
         self.log.append((args, tuple(kw)))
         if fail:
             return ("exc", Boom)
-        res = ("result", len(self.log))
+        res = None if args == (2,) else ("result", len(self.log))
         if self.maxsize == 0:
             return ("ok", res)
         if self.maxsize is not None and len(self.d) >= self.maxsize:
@@ -247,6 +251,8 @@ def h_dyn(npre: int, s0: int, s1: int, s2: int, o0: int, o1: int, o2: int, ms: i
             log_a.append((a, tuple(k.items())))
             if mode["fail"]:
                 raise Boom("failing call")
+            if a == (2,):
+                return None
             return ("result", len(log_a))
 
         ca = A.lru_cache(maxsize=maxsize, typed=typed)(fa)
@@ -572,6 +578,9 @@ def jobs(tier):
     else:
         for o0 in range(14):
             add("h_dyn", symbolic_ms=True, K=3, PRE=3, NKEY=4, o0=o0, typed=False)
+    for ms in ("none", "two"):
+        for o0r in ((0, 5), (6, 10)):
+            add("h_dyn", ms=ms, K=2, PRE=2, NKEY=3, typed=True, o0r=o0r)
     for ms in ("none", "zero", "one", "two"):
         for w in (0, 1, 2):
             add("h_meth", ms=ms, L=(2 if q else 3), which=w)
